@@ -132,3 +132,29 @@ PROPS["C18"] = {
     ],
     "min_nontrivial": {"quick": 5000, "thorough": 50000},
 }
+
+PROPS["C05"] = {
+    "level": "exploration",
+    "design_ref": "DESIGN.md §4.5",
+    "technique": "rapid-generated aliased SELECTs; metamorphic (alias expanded by its definition), differential (field cache on/off x row/batch) and reference-evaluator oracles per column",
+    "level_text": "Randomised exploration with three independent oracles per case: (a) the same statement with every use of a name replaced "
+                  "by its defining expression must return the same rows; (b) every returned row has one column per announced field and each "
+                  "column equals the reference evaluator's value of that field's expression on the row's pair; (c) EnableFieldCache on/off and "
+                  "row/batch iteration give identical rows at the drawn batch size. Names are used as operands of binary operators (also under "
+                  "! and nested &/|), function arguments, IN left sides / list-valued right sides / items, BETWEEN bounds, list index bases, "
+                  "inside other definitions (chains), ORDER BY and GROUP BY.",
+    "level_note": "Trusted: reference evaluator and RefSelect (lib/refselect.go). A bare name as a whole select field or whole WHERE is not "
+                  "generated (not a use the property lists); duplicate alias names are not generated. ORDER BY ties are compared as multisets.",
+    "rule": "rapid: store kind x size x batch size x 1-4 select fields (typed expressions, 75% named) x WHERE depth 0-3 with 35% alias bias; "
+            "one in four statements is an aggregate grouped by named fields; one in three has ORDER BY. "
+            "Non-trivial = a name is used in WHERE and, in key order, a pair the filter rejects precedes a pair it accepts "
+            "(a stale cached value could leak); distinct = distinct (query, store, batch size).",
+    "assumptions": COMMON_ASSUMPTIONS + [
+        "expanded statements that the checker refuses for structural reasons (key op key after expanding `key as t`) are skipped and counted (label expansion-rejected)",
+    ],
+    "legs": [
+        {"test": "TestC05", "kind": "rapid",
+         "quick": {"checks": 5000, "shards": 4, "shrink": "15s"}, "thorough": {"checks": 120000, "shards": 16}},
+    ],
+    "min_nontrivial": {"quick": 300, "thorough": 5000},
+}
